@@ -566,6 +566,11 @@ func (P *Program) registerStd() {
 	P.reg("context.WithCancel", func(fr *frame, args []value) value {
 		return tuple{args[0], &native{name: "cancel", fn: func(fr *frame, args []value) value { return nil }}}
 	})
+	P.reg("github.com/dchest/uniuri.NewLen", func(fr *frame, args []value) value {
+		fr.in.path.noteAssumption("uniuri.NewLen returns an arbitrary string")
+		return fr.in.freshOpq()
+	})
+	P.reg("github.com/dchest/uniuri.New", P.intrinsics["github.com/dchest/uniuri.NewLen"])
 	// ---- misc
 	P.reg("os.Exit", func(fr *frame, args []value) value { panic(targetPanic{msg: "os.Exit called"}) })
 }
